@@ -136,9 +136,15 @@ class Rings:
                     self.rings.insert(0, [f"h{a[1]}"])
         elif o in ("LD", "SD"):
             self.erase(f"h{a[0]}")
+        elif o in ("LS", "SS"):           # std::swap: temporary list / signal 7
+            for step in (f"LM 7 {a[0]}", f"LA {a[0]} {a[1]}", f"LA {a[1]} 7", "LD 7"):
+                self.apply(step)
+        elif o == "ES":                   # temporary element 15
+            for step in (f"M 15 {a[0]}", f"A {a[0]} {a[1]}", f"A {a[1]} 15", "d 15"):
+                self.apply(step)
 
 
-def valid_list_ops(st, list_ids=LIST_IDS, elem_ids=ELEM_IDS, max_lists=MAX_LISTS_LIVE, max_elems=MAX_ELEMS_LIVE, canonical=False):
+def valid_list_ops(st, list_ids=LIST_IDS, elem_ids=ELEM_IDS, max_lists=MAX_LISTS_LIVE, max_elems=MAX_ELEMS_LIVE, canonical=False, swaps=True):
     """all valid operations in state st, grouped by kind. canonical: fresh ids are the smallest free id."""
     ls, es = st.lists(), st.elems()
     free_l = [k for k in range(list_ids) if k not in ls]
@@ -157,10 +163,13 @@ def valid_list_ops(st, list_ids=LIST_IDS, elem_ids=ELEM_IDS, max_lists=MAX_LISTS
     ops["A"] = [f"A {a} {b}" for a in es for b in es]
     ops["LA"] = [f"LA {k} {k2}" for k in ls for k2 in ls]
     ops["LD"] = [f"LD {k}" for k in ls]
+    if swaps:
+        ops["LS"] = [f"LS {k} {k2}" for k in ls for k2 in ls if k <= k2]
+        ops["ES"] = [f"ES {a} {b}" for a in es for b in es if a <= b]
     return {k: v for k, v in ops.items() if v}
 
 
-LIST_WEIGHTS = {"L": 3, "E": 10, "d": 5, "u": 3, "M": 5, "A": 6, "LM": 3, "LA": 5, "LD": 2}
+LIST_WEIGHTS = {"L": 3, "E": 10, "d": 5, "u": 3, "M": 5, "A": 6, "LM": 3, "LA": 5, "LD": 2, "LS": 2, "ES": 3}
 
 
 def gen_list_history(rng, length):
@@ -182,7 +191,7 @@ def gen_list_history(rng, length):
             x -= wk
         op = rng.choice(cand[k])
         # self move-assignment is legal and rare
-        if k in ("A", "LA"):
+        if k in ("A", "LA", "LS", "ES"):
             t = op.split()
             if t[1] == t[2] and not rng.chance(1, 4):
                 continue
@@ -191,7 +200,7 @@ def gen_list_history(rng, length):
     return ops
 
 
-SIG_WEIGHTS = {"N": 3, "C": 12, "X": 5, "SM": 3, "SA": 5, "SD": 2, "call": 4,
+SIG_WEIGHTS = {"N": 3, "C": 12, "X": 5, "SM": 3, "SA": 5, "SD": 2, "SS": 2, "call": 4,
                "HA": 3, "HW": 2, "KP": 4, "KO": 2, "KE": 3, "KC": 2, "KA": 2, "ACT": 5, "rcall": 6}
 FAMS = "SPVW"            # S int/unregister, P int/plain, V void/unregister, W void/plain
 N_CONTS = 3
@@ -296,6 +305,9 @@ class SigState:
             self.comb[a[0]] = self.comb[a[1]]
             self.comb[a[1]] = False
             self.st.apply(op)
+        elif o == "SS":
+            self.st.apply(op)
+            self.comb[a[0]], self.comb[a[1]] = self.comb[a[1]], self.comb[a[0]]
         elif o in ("SA", "SD"):
             self.st.apply(op)
             if o == "SA" and a[0] != a[1]:
@@ -336,7 +348,7 @@ class SigState:
             raise ValueError(op)
 
     def valid_ops(self, sig_ids=LIST_IDS, conn_ids=ELEM_IDS, max_sigs=MAX_LISTS_LIVE, max_conns=MAX_ELEMS_LIVE,
-                  n_conts=N_CONTS, canonical=False, fams=FAMS, rng=None):
+                  n_conts=N_CONTS, canonical=False, fams=FAMS, rng=None, swaps=True):
         """all valid operation lines in this state, grouped by kind"""
         ls = self.st.lists()
         used = self.conns()
@@ -356,6 +368,8 @@ class SigState:
         cand["X"] = [f"SX {h}" for h in full_h]
         cand["SA"] = [f"SA {k} {k2}" for k in ls for k2 in ls if self.fam[k] == self.fam[k2]]
         cand["SD"] = [f"SD {k}" for k in ls]
+        if swaps:
+            cand["SS"] = [f"SS {k} {k2}" for k in ls for k2 in ls if k <= k2 and self.fam[k] == self.fam[k2]]
         cand["call"] = [(f"call {k} {rb(50)} {rb(50)}" if self.fam[k] in "SP" else f"vcall {k} {rb(50)}") for k in ls]
         cand["HA"] = [f"HA {a} {b}" for b in full_h for a in (full_h + empty_h)]          # a == b: self-move-assignment
         cand["HW"] = [f"HW {a} {b}" for a in full_h for b in (full_h + empty_h)]          # a == b: self-swap
@@ -421,7 +435,33 @@ def sig_scenarios():
     ]
 
 
-def enum_sig_small(depth, only=None):
+def enum_sig_swap_small():
+    """std::swap of every pair of signals of one kind (a signal with itself included) after <= 1 operation from each scenario, then one more operation"""
+    out = []
+    for pre in sig_scenarios():
+        g0 = SigState()
+        for o in pre:
+            g0.apply(o)
+        fams = "".join(sorted(set(g0.fam.values())))
+        kw = dict(sig_ids=3, conn_ids=5, max_sigs=3, max_conns=4, n_conts=2, canonical=True, fams=fams)
+
+        def ops_of(g, swaps):
+            c = g.valid_ops(swaps=swaps, **kw)
+            return [op for k in sorted(c) if k != "call" for op in c[k]]
+
+        for f in [[]] + [[op] for op in ops_of(g0, False)]:
+            g1 = g0.copy()
+            for o in f:
+                g1.apply(o)
+            for sw in g1.valid_ops(**kw).get("SS", []):
+                g2 = g1.copy()
+                g2.apply(sw)
+                for o2 in ops_of(g2, False):
+                    out.append(pre + f + [sw, o2])
+    return out
+
+
+def enum_sig_small(depth, only=None, swaps=False):
     out = []
     for idx, pre in enumerate(sig_scenarios()):
         if only is not None and idx not in only:
@@ -436,7 +476,7 @@ def enum_sig_small(depth, only=None):
                 out.append(pre + seq)
             if d == 0:
                 return
-            cand = g.valid_ops(sig_ids=3, conn_ids=5, max_sigs=3, max_conns=4, n_conts=2, canonical=True, fams=fams)
+            cand = g.valid_ops(sig_ids=3, conn_ids=5, max_sigs=3, max_conns=4, n_conts=2, canonical=True, fams=fams, swaps=swaps)
             for k in sorted(cand):
                 if k == "call":
                     continue            # the dump of every line calls every signal
@@ -698,7 +738,7 @@ def scenarios():
     ]
 
 
-def enum_small(depth, max_lists=3, max_elems=4, only=None):
+def enum_small(depth, max_lists=3, max_elems=4, only=None, swaps=False):
     out = []
     for idx, pre in enumerate(scenarios()):
         if only is not None and idx not in only:
@@ -712,7 +752,7 @@ def enum_small(depth, max_lists=3, max_elems=4, only=None):
                 out.append(pre + seq)
             if d == 0:
                 return
-            cand = valid_list_ops(st, list_ids=4, elem_ids=6, max_lists=max_lists, max_elems=max_elems, canonical=True)
+            cand = valid_list_ops(st, list_ids=4, elem_ids=6, max_lists=max_lists, max_elems=max_elems, canonical=True, swaps=swaps)
             for k in sorted(cand):
                 for op in cand[k]:
                     st2 = st.copy()
@@ -720,6 +760,30 @@ def enum_small(depth, max_lists=3, max_elems=4, only=None):
                     rec(st2, seq + [op], d - 1)
 
         rec(st0, [], depth)
+    return out
+
+
+def enum_swap_small():
+    """std::swap of every pair of lists and of every pair of elements (a list / an element with itself included) in every state
+    reached by <= 1 operation from each start scenario, followed by every single operation"""
+    out = []
+    kw = dict(list_ids=4, elem_ids=6, max_lists=3, max_elems=4, canonical=True)
+    for pre in scenarios():
+        st0 = Rings()
+        for o in pre:
+            st0.apply(o)
+        firsts = [[]] + [[op] for k, v in sorted(valid_list_ops(st0, swaps=False, **kw).items()) for op in v]
+        for f in firsts:
+            st1 = st0.copy()
+            for o in f:
+                st1.apply(o)
+            c = valid_list_ops(st1, **kw)
+            for sw in c.get("LS", []) + c.get("ES", []):
+                st2 = st1.copy()
+                st2.apply(sw)
+                nxt = [op for k, v in sorted(valid_list_ops(st2, swaps=False, **kw).items()) for op in v]
+                for o2 in nxt:
+                    out.append(pre + f + [sw, o2])
     return out
 
 
@@ -748,9 +812,13 @@ def flat(hists):
 def batches(rng, tier):
     thorough = tier == "thorough"
     depth = 3
-    small = maximal_only(enum_small(depth))
+    small = maximal_only(enum_small(depth, swaps=thorough))
     yield Batch("lists-small-scope", flat(small), kind="history", exhaustive=True,
                 note=f"every valid sequence of <= {depth} operations (canonical fresh ids) after each of {len(scenarios())} start scenarios; {len(small)} maximal histories")
+    sw = enum_swap_small()
+    yield Batch("lists-swap-small-scope", flat(sw), kind="history", exhaustive=True,
+                note=f"std::swap of every pair of lists / of elements (self-swap included) in every state <= 1 operation away from a start scenario, "
+                     f"followed by every single operation; {len(sw)} histories")
     if thorough:
         for idx in DEEP_SCENARIOS:
             deep = maximal_only(enum_small(4, only=[idx]))
@@ -772,10 +840,14 @@ def batches(rng, tier):
     yield Batch("iterators-random", flat(hs), kind="history",
                 note=f"{n} random list histories of length {ln // 2}..{ln} with iterator operations interleaved (iterators kept across mutations)")
     sdepth = 3
-    ssmall = maximal_only(enum_sig_small(sdepth))
+    ssmall = maximal_only(enum_sig_small(sdepth, swaps=thorough))
     yield Batch("signals-small-scope", flat(ssmall), kind="history", exhaustive=True,
                 note=f"every valid sequence of <= {sdepth} signal / owner operations (canonical fresh ids) after each of {len(sig_scenarios())} start scenarios "
                      f"(all four instantiations); {len(ssmall)} maximal histories")
+    ssw = enum_sig_swap_small()
+    yield Batch("signals-swap-small-scope", flat(ssw), kind="history", exhaustive=True,
+                note=f"std::swap of every pair of signals of one kind (self-swap included) in every state <= 1 operation away from a signal scenario, "
+                     f"followed by every single operation; {len(ssw)} histories")
     if thorough:
         for idx in SIG_DEEP:
             deep = maximal_only(enum_sig_small(4, only=[idx]))
